@@ -1,6 +1,6 @@
 //! Combinatorial functions.
 
-use crate::functions::gamma;
+use crate::functions::ln_gamma;
 /// Calculates the [binomial coefficient](https://en.wikipedia.org/wiki/Binomial_coefficient)
 /// nCk for two integers `n` and `k`, with `n >= k`.
 ///
@@ -24,7 +24,7 @@ pub fn binom_coeff(n: u64, k: u64) -> u64 {
 /// between the compute time using the `binom_coeff` method and this method. This method becomes
 /// slightly inaccurate (by 1 or 2) starting at `n ~ 50`.
 pub fn binom_coeff_alt(n: u64, k: u64) -> u64 {
-    (gamma(n as f64 + 1.).ln() - gamma(k as f64 + 1.).ln() - gamma((n - k) as f64 + 1.).ln())
+    (ln_gamma(n as f64 + 1.) - ln_gamma(k as f64 + 1.) - ln_gamma((n - k) as f64 + 1.))
         .exp()
         .round() as u64
 }
